@@ -452,6 +452,29 @@ def main(out_path):
     L.append("  end.")
     L.append("")
 
+    # --- is the criteria table itself checked before a CriteriaMapper is built from it?
+    criteria_rs = strip_comments(read("src/criteria.rs"))
+    table_fn_ok = False
+    if re.search(r"\bfn\s+check_criteria_table\b", criteria_rs):
+        cb = fn_body(criteria_rs, "check_criteria_table")
+        table_fn_ok = bool(re.search(r"for\s+builtin\s+in\s+\[\s*SAFE_TO_RUN\s*,\s*SAFE_TO_DEPLOY\s*\]", cb)) and \
+            bool(re.search(r"criteria\.contains_key\(\s*builtin\s*\)", cb)) and \
+            bool(re.search(r"criteria\.len\(\)\s*\+\s*2\s*>\s*MAX_CRITERIA", cb)) and \
+            bool(re.search(r"Some\(\s*Mark::InProgress\s*\)\s*=>\s*\{?\s*return\s+Err", cb))
+    vchecks = table_fn_ok and bool(re.search(
+        r"if\s+let\s+Err\(\s*message\s*\)\s*=\s*crate::criteria::check_criteria_table\(\s*&self\.audits\.criteria\s*\)\s*\{\s*"
+        r"errors\.push\(\s*StoreValidateError::InvalidCriteriaTable", val))
+    fsi = fn_body(storage, "fetch_single_imported_audit")
+    i_chk = fsi.find("check_criteria_table(&audit_file.criteria)")
+    i_new = fsi.find("CriteriaMapper::new(&audit_file.criteria)")
+    pchecks = table_fn_ok and 0 <= i_chk < i_new and bool(re.search(r"check_criteria_table\(&audit_file\.criteria\)\s*\.map_err\(", fsi)) \
+        and bool(re.search(r"\}\s*\)\s*\?\s*;\s*let\s+foreign_criteria_mapper", fsi))
+    L.append("(* Store::validate refuses an unusable criteria table (built-in redefined, too many criteria, implication cycle);")
+    L.append("   fetch_single_imported_audit does the same for a peer's table before building its mapper *)")
+    L.append(f"Definition VALIDATE_CHECKS_TABLE : bool := {'true' if vchecks else 'false'}.")
+    L.append(f"Definition PEER_TABLE_CHECKED : bool := {'true' if pchecks else 'false'}.")
+    L.append("")
+
     # --- unpack_package: shape facts
     up = fn_body(storage, "unpack_package")
     i_loop = up.find("for entry in tar.entries()")
